@@ -236,6 +236,8 @@ def pipelineJ (j : Json) : Except String Json := do
   | .ok cfg =>
     let t := NGF.PipelineTie.tie cfg s 600
     pure (Json.mkObj [("inFragment", t.inFragment), ("why", t.why), ("noShadow", t.noShadow), ("confEqual", t.confEqual),
+      ("namesPlain", t.namesPlain), ("routesHaveRules", t.routesHaveRules), ("thmProbes", t.thmProbes),
+      ("reqExcluded", t.reqExcluded),
       ("confDiff", t.confDiff), ("probes", t.probes), ("thmFail", t.thmFail.getD ""), ("specFail", t.specFail.getD "")])
 
 def answer (mode : String) (line : String) : String :=
